@@ -459,8 +459,25 @@ def ref_split(data):
     return [x.rstrip(b"\r\n") for x in out if x.rstrip(b"\r\n")]
 
 
+def _splitter(mbox):
+    """The mailbox splitter of the real module, by its ROLE when it does not carry the written name (a private helper may be
+    renamed): the one module-level one-argument function that runs `finditer` of a module-level compiled pattern."""
+    fn = getattr(mbox, "_split_mbox_messages", None)
+    if fn is not None:
+        return fn
+    import ast, inspect
+    tree = ast.parse(inspect.getsource(mbox))
+    cands = [f.name for f in tree.body if isinstance(f, ast.FunctionDef) and len(f.args.posonlyargs + f.args.args) == 1
+             and any(isinstance(n, ast.Call) and isinstance(n.func, ast.Attribute) and n.func.attr == "finditer" and isinstance(n.func.value, ast.Name)
+                     and isinstance(getattr(mbox, n.func.value.id, None), re.Pattern) for n in ast.walk(f))]
+    if len(cands) != 1:
+        raise AttributeError("no function of mbox_email_extractor fills the role of _split_mbox_messages")
+    return getattr(mbox, cands[0])
+
+
 def check_split(seed=0, n=3000):
     mbox, _ = _mods()
+    split = _splitter(mbox)
     rng = random.Random(seed)
     atoms = [b"From a@x.org Mon Jan  1 00:00:00 2024", b">From b Mon Jan  1 00:00:00 2024", b"From: a@x.org", b"Subject: s", b"", b"body 2024", b"From x",
              b"text", b"From MAILER-DAEMON Sat Oct  3 21:40:04 2026"]
@@ -468,7 +485,7 @@ def check_split(seed=0, n=3000):
         eol = rng.choice([b"\n", b"\r\n"])
         lines = [rng.choice(atoms) for _ in range(rng.randrange(0, 9))]
         data = eol.join(lines) + (eol if lines and rng.random() < 0.8 else b"")
-        got, want = mbox._split_mbox_messages(data), ref_split(data)
+        got, want = split(data), ref_split(data)
         if got != want:
             return {"target": "mbox_email_extractor.py::_split_mbox_messages", "inputs": {"data": data.decode("latin-1")}, "expected": _short(want), "observed": _short(got)}
     return None
